@@ -23,5 +23,6 @@ def check(repo, rep, tier):
     rep.run(rs.rule_queries_read_only, em, rep, 'C04.I7')
     rep.run(rs.rule_context_not_written, em, rep, 'C04.I2b')
     rep.run(rx.rule_no_definition_time_state, em, rep, 'C04.I8')
+    rep.run(rx.rule_state_on_engine_only, em, rep, 'C04.I9')
     fr = rs.Freshness(em)
     rep.run(rs.rule_fresh_per_use, em, rep, 'C04.I10', fr)
